@@ -823,3 +823,264 @@ Proof.
   - intros Cs'. apply settle1_inv in Hs. destruct Hs; cbn in Cs'; try congruence.
     unfold dequeue in Cs'. destruct (inq s) as [|[b ms] q]; [destruct (running s)|]; cbn in Cs'; congruence.
 Qed.
+
+(** * 2. the safety core: when a unit has been released, every runnable notification of every
+      earlier unit has returned.  Holds in every state, crashed or not. *)
+Theorem barrier_past c s u j n : reachf c s -> released s u = true ->
+  nth_error (tasks s) j = Some n -> t_unit n < u -> runnable n = true -> is_note n = true ->
+  exists b, t_st n = TDone b.
+Proof.
+  intros R Ru E Lt Rn Nn. apply tdone_true.
+  eapply (q_past _ _ (reachf_Q _ _ R)); eauto. unfold rnote. rewrite Rn, Nn. reflexivity.
+Qed.
+
+(** * 3. notification before later request *)
+(* state form: a task past the semaphore (queued in it, running, returned) has every runnable
+   notification of every earlier message already done *)
+Definition notes_before (s : state) : Prop :=
+  forall i r j n, nth_error (tasks s) i = Some r -> nth_error (tasks s) j = Some n ->
+    t_unit n < t_unit r -> runnable n = true -> is_note n = true ->
+    t_st r <> TSkip -> t_st r <> TAtAcquire -> exists b, t_st n = TDone b.
+
+Theorem notification_before_later_f c s : reachf c s -> notes_before s.
+Proof.
+  intros R i r j n Ei Ej Lt Rn Nn N1 N2.
+  assert (Rl : released s (t_unit r) = true).
+  { destruct (released s (t_unit r)) eqn:Rr; auto. destruct (unreleased_pending _ _ _ _ R Ei Rr); congruence. }
+  eapply barrier_past; eauto.
+Qed.
+
+Theorem notification_before_later c s : reach c s -> notes_before s.
+Proof. intros R. apply notification_before_later_f with c. apply reach_reachf; auto. Qed.
+
+(* contrapositive: while a notification is open, every task of every later message is still
+   before the semaphore (or was rejected) *)
+Theorem open_note_blocks_later c s j n i r : reachf c s ->
+  nth_error (tasks s) j = Some n -> runnable n = true -> is_note n = true -> (forall b, t_st n <> TDone b) ->
+  nth_error (tasks s) i = Some r -> t_unit n < t_unit r -> t_st r = TSkip \/ t_st r = TAtAcquire.
+Proof.
+  intros R Ej Rn Nn Nd Ei Lt.
+  destruct (t_st r) eqn:St; auto.
+  all: destruct (notification_before_later_f _ _ R i r j n Ei Ej Lt Rn Nn) as (b0 & Hb); try congruence.
+  all: destruct (Nd _ Hb).
+Qed.
+
+(* raw steps never release a unit *)
+Lemma raw_released_back s l s1 os v : inv s -> step_raw s l = Some (s1, os) -> v < length (units s) ->
+  released s1 v = true -> released s v = true.
+Proof.
+  intros I H Lv R. unfold released in *.
+  destruct (raw_shape_ok _ _ _ _ I H) as [U L| -> |u un _ Eu Su U L].
+  - rewrite U in R. exact R.
+  - unfold dequeue in R. destruct (inq s) as [|[b ms] q]; [destruct (running s); exact R|].
+    cbn in R. rewrite rel_in_app_old in R; auto.
+  - rewrite U, (rel_in_upd _ _ _ _ _ Eu) in R. destruct (Nat.eqb_spec u v) as [<-|N]; auto.
+    unfold rel_in, released_u. rewrite Eu, Su. reflexivity.
+Qed.
+
+Lemma rank_lt2 st : rank st < 2 -> st = TAtAcquire \/ st = TWaiting.
+Proof. destruct st; cbn; intros; auto; lia. Qed.
+
+(* step form: in the state BEFORE the window in which the handler of r is entered, every runnable
+   notification of every earlier message is already done *)
+Theorem notification_before_later_step c s l s' os p cn :
+  reach c s -> step s l = Some (s', os) -> In (OStart p cn) os ->
+  exists k r, nth_error (tasks s) k = Some r /\ t_params r = p /\
+    (t_st r = TAtAcquire \/ t_st r = TWaiting) /\
+    (exists r', nth_error (tasks s') k = Some r' /\ t_st r' = TRunning) /\
+    forall j n, nth_error (tasks s) j = Some n -> t_unit n < t_unit r -> runnable n = true -> is_note n = true ->
+      exists b, t_st n = TDone b.
+Proof.
+  intros R H Ho. apply reach_reachf in R. pose proof (reachf_inv _ _ R) as I.
+  destruct (step_obs_raw _ _ _ _ _ H Ho) as (Cr & s1 & os1 & Hr & Ho1 & K); [cbn; tauto|].
+  pose proof (raw_obs _ _ _ _ _ I Hr Ho1) as O. cbn in O.
+  destruct O as (k & t & t1 & E & E1 & Ep & Ec & Rk & St1 & _ & Hl).
+  assert (R1 : reachf c s1) by (eapply rf_raw; eauto).
+  exists k, t. split; auto. split; auto. split; [apply rank_lt2; auto|].
+  split; [exists t1; split; auto|].
+  assert (Rl1 : released s1 (t_unit t1) = true).
+  { destruct (released s1 (t_unit t1)) eqn:Rr; auto. destruct (unreleased_pending _ _ _ _ R1 E1 Rr); congruence. }
+  assert (Un : t_unit t1 = t_unit t).
+  { destruct (raw_step_ok _ _ _ _ I Hr) as (_ & X & _). destruct (X _ _ E) as (t2 & E2 & Le).
+    rewrite E1 in E2. injection E2 as <-. destruct Le; auto. }
+  assert (Rl : released s (t_unit t) = true).
+  { rewrite Un in Rl1. eapply raw_released_back; eauto. exact (i_unit _ I _ _ E). }
+  intros j n Ej Lt Rn Nn. exact (barrier_past c s (t_unit t) j n R Rl Ej Lt Rn Nn).
+Qed.
+
+(** ** trace forms *)
+(* which notification can become done in a transition: only the one whose LRelHandled it is *)
+Definition dn (ex : option nat) (a b : state) : Prop :=
+  forall j n', nth_error (tasks b) j = Some n' -> is_note n' = true -> tdone n' = true ->
+    (exists n, nth_error (tasks a) j = Some n /\ is_note n = true /\ tdone n = true) \/ ex = Some j.
+
+Lemma dn_refl ex a : dn ex a a.
+Proof. intros j n E N D. left. eauto. Qed.
+
+Lemma dn_trans ex a b d : dn ex a b -> dn ex b d -> dn ex a d.
+Proof.
+  intros H1 H2 j n E N D. destruct (H2 _ _ E N D) as [(nb & Eb & Nb & Db)|X]; auto. eapply H1; eauto.
+Qed.
+
+Lemma dn_weaken ex a b : dn None a b -> dn ex a b.
+Proof. intros H j n E N D. destruct (H _ _ E N D) as [X|X]; [auto|discriminate]. Qed.
+
+Lemma nk_dn ex a b : nk ex (tasks a) (tasks b) ->
+  (forall j n', nth_error (tasks a) j = None -> nth_error (tasks b) j = Some n' -> tdone n' = false) ->
+  dn ex a b.
+Proof.
+  intros K New j n' E N D. destruct (nth_error (tasks a) j) as [n|] eqn:Ea.
+  - destruct (K _ _ Ea) as (n2 & E2 & Ei & Hd). rewrite E in E2. injection E2 as <-.
+    assert (Nn : is_note n = true) by (unfold is_note in *; rewrite <- Ei; exact N).
+    destruct (tdone n) eqn:Dn; [left; eauto|right; auto].
+  - rewrite (New _ _ Ea E) in D. discriminate.
+Qed.
+
+Lemma dequeue_new_fresh s j n : nth_error (tasks s) j = None -> nth_error (tasks (dequeue s)) j = Some n ->
+  tdone n = false.
+Proof.
+  intros E0 E. unfold dequeue in E. destruct (inq s) as [|[b ms] q].
+  - destruct (running s); cbn in E; congruence.
+  - cbn in E. apply nth_error_None in E0. rewrite nth_error_app2 in E by auto.
+    apply nth_error_In, in_map_iff in E as (m & <- & _).
+    unfold tdone. destruct (mk_task_st s (length (units s)) (map (fun m => fix_id (j_id m)) ms) m) as [[St _]|[St _]];
+      rewrite St; reflexivity.
+Qed.
+
+Lemma raw_dn c s l s' os : reachf c s -> step_raw s l = Some (s', os) -> dn (done_label l) s s'.
+Proof.
+  intros R H. pose proof (reachf_inv _ _ R) as I.
+  apply nk_dn.
+  - eapply raw_Q; eauto.
+    + eapply reachf_inv2; eauto.
+    + apply inv_used_owners. eapply reachf_inv_used; eauto.
+    + eapply reachf_Q; eauto.
+  - intros j n' E0 E. apply nth_error_None in E0.
+    destruct (raw_shape_ok _ _ _ _ I H) as [U L| -> |u un _ Eu Su U L].
+    + apply nth_error_some_lt in E. lia.
+    + eapply dequeue_new_fresh; eauto. apply nth_error_None; auto.
+    + apply nth_error_some_lt in E. lia.
+Qed.
+
+Lemma settle1_dn s s' os : settle1 s = Some (s', os) -> dn None s s'.
+Proof.
+  intros H. apply nk_dn.
+  - apply nk_keeps. eapply settle1_keeps; eauto.
+  - intros j n' E0 E. apply settle1_inv in H. destruct H; cbn in E; try congruence.
+    eapply dequeue_new_fresh; eauto.
+Qed.
+
+Lemma settle_dn : forall fuel s acc s' os, settle fuel s acc = (s', os) -> dn None s s'.
+Proof.
+  induction fuel as [|f IH]; cbn; intros s acc s' os H.
+  - injection H as <- _. apply dn_refl.
+  - destruct (settle1 s) as [[s1 os1]|] eqn:E.
+    + eapply dn_trans; [eapply settle1_dn; eauto|eapply IH; eauto].
+    + injection H as <- _. apply dn_refl.
+Qed.
+
+(* a notification becomes done only in the window of its own LRelHandled (nbar.Done) *)
+Theorem note_done_only_by_handled c s l s' os : reach c s -> step s l = Some (s', os) -> dn (done_label l) s s'.
+Proof.
+  intros R H. apply reach_reachf in R.
+  apply step_decompose in H as (Cr & s1 & os1 & Hr & [(_ & -> & _)|(_ & Hs)]).
+  - eapply raw_dn; eauto.
+  - eapply dn_trans; [eapply raw_dn; eauto|]. apply dn_weaken. eapply settle_dn; eauto.
+Qed.
+
+Lemma run_done_note c : forall tr s0 s oss, reach c s0 -> run s0 tr = Some (s, oss) ->
+  forall j n', nth_error (tasks s) j = Some n' -> is_note n' = true -> tdone n' = true ->
+  (exists n, nth_error (tasks s0) j = Some n /\ is_note n = true /\ tdone n = true) \/ In (LRelHandled j) tr.
+Proof.
+  induction tr as [|l r IH]; cbn; intros s0 s oss R H j n' E N D.
+  - injection H as <- _. left. eauto.
+  - destruct (step s0 l) as [[s1 os]|] eqn:Es; [|discriminate].
+    destruct (run s1 r) as [[s2 oss2]|] eqn:Er; [|discriminate]. injection H as <- _.
+    assert (R1 : reach c s1) by (eapply reach_step; eauto).
+    destruct (IH _ _ _ R1 Er _ _ E N D) as [(n1 & E1 & N1 & D1)|X]; [|auto].
+    destruct (note_done_only_by_handled _ _ _ _ _ R Es _ _ E1 N1 D1) as [X|X]; auto.
+    right. left. destruct l; cbn in X; try discriminate. congruence.
+Qed.
+
+(* in every trace, a notification that is done was returned by an earlier LRelHandled of it *)
+Theorem done_note_was_handled c tr s oss j n : run (init_of c) tr = Some (s, oss) ->
+  nth_error (tasks s) j = Some n -> is_note n = true -> (exists b, t_st n = TDone b) ->
+  exists tra trb, tr = tra ++ LRelHandled j :: trb.
+Proof.
+  intros H E N D. apply tdone_true in D.
+  destruct (run_done_note c tr _ _ _ (reach_init c) H _ _ E N D) as [(n0 & E0 & _)|X].
+  - destruct j; discriminate.
+  - apply in_split. exact X.
+Qed.
+
+(* every prefix of a trace is a trace: the state form holds at every instant, and a notification
+   that is done stays done with the same result *)
+Theorem notification_before_later_every_instant c tr1 tr2 s2 oss :
+  run (init_of c) (tr1 ++ tr2) = Some (s2, oss) ->
+  exists s1 oss1, run (init_of c) tr1 = Some (s1, oss1) /\ notes_before s1 /\
+    forall j n b, nth_error (tasks s1) j = Some n -> t_st n = TDone b ->
+      exists n2, nth_error (tasks s2) j = Some n2 /\ t_st n2 = TDone b.
+Proof.
+  intros H. apply SrvC06.run_app in H as (s1 & o1 & o2 & H1 & H2 & _).
+  assert (R1 : reach c s1) by (eapply run_reach; [apply reach_init|exact H1]).
+  exists s1, o1. split; auto. split; [apply (notification_before_later c); auto|].
+  intros j n b E St. destruct (run_task_le c _ _ _ _ _ _ (reach_reachf _ _ R1) H2 E) as (n2 & E2 & Le).
+  exists n2. split; auto. destruct (tl_st _ _ Le) as (_ & _ & Dn & _). rewrite (Dn _ St). exact St.
+Qed.
+
+(* the trace form: whenever a handler is entered (OStart in the window of the label l), every
+   runnable notification of every earlier message has been returned by an LRelHandled that
+   occurs EARLIER in the trace, and stays done to the end of the trace *)
+Theorem notification_before_later_trace c tr1 l tr2 s2 oss :
+  run (init_of c) (tr1 ++ l :: tr2) = Some (s2, oss) ->
+  exists s1 oss1 s1' os, run (init_of c) tr1 = Some (s1, oss1) /\ step s1 l = Some (s1', os) /\
+    forall p cn, In (OStart p cn) os ->
+    exists k r, nth_error (tasks s1) k = Some r /\ t_params r = p /\
+      (t_st r = TAtAcquire \/ t_st r = TWaiting) /\
+      (exists r', nth_error (tasks s1') k = Some r' /\ t_st r' = TRunning) /\
+      forall j n, nth_error (tasks s1) j = Some n -> t_unit n < t_unit r -> runnable n = true -> is_note n = true ->
+        exists b, t_st n = TDone b /\
+          (exists tra trb, tr1 = tra ++ LRelHandled j :: trb) /\
+          exists n2, nth_error (tasks s2) j = Some n2 /\ t_st n2 = TDone b.
+Proof.
+  intros H. apply SrvC06.run_app in H as (s1 & o1 & o2 & H1 & H2 & _).
+  assert (R1 : reach c s1) by (eapply run_reach; [apply reach_init|exact H1]).
+  cbn in H2. destruct (step s1 l) as [[s1' os]|] eqn:Es; [|discriminate].
+  destruct (run s1' tr2) as [[s3 oss3]|] eqn:Er; [|discriminate]. injection H2 as -> _.
+  exists s1, o1, s1', os. split; auto. split; auto. intros p cn Ho.
+  destruct (notification_before_later_step _ _ _ _ _ _ _ R1 Es Ho) as (k & r & Ek & Ep & St & Hr' & Hn).
+  exists k, r. repeat split; auto. intros j n Ej Lt Rn Nn.
+  destruct (Hn _ _ Ej Lt Rn Nn) as (b & Hb). exists b. split; auto. split.
+  - eapply done_note_was_handled; eauto.
+  - assert (Hrun : run s1 (l :: tr2) = Some (s2, os :: oss3)) by (cbn; rewrite Es, Er; reflexivity).
+    destruct (run_task_le c _ _ _ _ _ _ (reach_reachf _ _ R1) Hrun Ej) as (n2 & E2 & Le).
+    exists n2. split; auto. destruct (tl_st _ _ Le) as (_ & _ & Dn & _). rewrite (Dn _ Hb). exact Hb.
+Qed.
+
+(* r is never entered if n never returns: if at the end of a trace the notification n is still
+   open, no window of the trace entered the handler of a task of a later message *)
+Theorem never_entered_while_open c tr1 l tr2 s2 oss j n2 :
+  run (init_of c) (tr1 ++ l :: tr2) = Some (s2, oss) ->
+  nth_error (tasks s2) j = Some n2 -> runnable n2 = true -> is_note n2 = true -> (forall b, t_st n2 <> TDone b) ->
+  exists s1 oss1 s1' os, run (init_of c) tr1 = Some (s1, oss1) /\ step s1 l = Some (s1', os) /\
+    forall p cn, In (OStart p cn) os ->
+    exists k r, nth_error (tasks s1) k = Some r /\ t_params r = p /\ t_unit r <= t_unit n2.
+Proof.
+  intros H E2 Rn Nn Nd.
+  destruct (notification_before_later_trace _ _ _ _ _ _ H) as (s1 & o1 & s1' & os & H1 & Es & Hs).
+  exists s1, o1, s1', os. split; auto. split; auto. intros p cn Ho.
+  destruct (Hs _ _ Ho) as (k & r & Ek & Ep & _ & _ & Hn). exists k, r. split; auto. split; auto.
+  destruct (Nat.le_gt_cases (t_unit r) (t_unit n2)) as [Le|Lt]; auto. exfalso.
+  assert (R1 : reach c s1) by (eapply run_reach; [apply reach_init|exact H1]).
+  apply SrvC06.run_app in H as (s1x & o1x & o2 & H1x & H2 & _). rewrite H1 in H1x. injection H1x as <- <-.
+  pose proof (reach_reachf _ _ R1) as Rf.
+  destruct (nth_error (tasks s1) j) as [n|] eqn:Ej.
+  - destruct (run_task_le c _ _ _ _ _ _ Rf H2 Ej) as (n2' & E2' & Le). rewrite E2 in E2'. injection E2' as <-.
+    destruct Le as [Lu Li _ _ Lp _ _ _ Ls].
+    assert (Rn' : runnable n = true) by (unfold runnable in *; rewrite <- Lp; exact Rn).
+    assert (Nn' : is_note n = true) by (unfold is_note in *; rewrite <- Li; exact Nn).
+    destruct (Hn _ _ Ej) as (b & Hb & _); auto; [lia|].
+    destruct Ls as (_ & _ & Dn & _). apply (Nd b). rewrite (Dn _ Hb). exact Hb.
+  - apply nth_error_None in Ej. destruct (run_ext2 c _ _ _ _ Rf H2) as [_ Fr].
+    specialize (Fr _ _ Ej E2). pose proof (i_unit _ (reachf_inv _ _ Rf) _ _ Ek). lia.
+Qed.
